@@ -313,6 +313,25 @@ def history_stream(ctx, profile, seed, nhist, length, fp, shards=16):
     return triples, None
 
 
+def grid_stream(ctx, fp):
+    """The exhaustive authorisation grid (message variant x sender class x world kind)."""
+    key = '%s-%s-grid' % (fp, verif_fingerprint(ctx))
+    d = cache_dir(ctx, hashlib.sha256(key.encode()).hexdigest()[:20])
+    ops = os.path.join(d, 'grid.ops')
+    robs = os.path.join(d, 'rust.obs')
+    mobs = os.path.join(d, 'model.obs')
+    if not os.path.exists(os.path.join(d, 'DONE')):
+        rc, out = run([ctx.harness_bin, 'grid', ops, robs], timeout=3600)
+        if rc != 0:
+            return None, 'harness grid failed: %s' % out[-400:]
+        with open(mobs, 'w') as f:
+            p = subprocess.run([ctx.driver_bin, 'run', ops], stdout=f, stderr=subprocess.PIPE, text=True, timeout=3600)
+        if p.returncode != 0:
+            return None, 'driver run grid failed: %s' % (p.stderr or '')[-400:]
+        open(os.path.join(d, 'DONE'), 'w').write('ok')
+    return (ops, robs, mobs), None
+
+
 def scenario_stream(ctx, path, fp):
     """Run one fixed operation file on both sides."""
     key = '%s-%s-scn-%s-%s' % (fp, verif_fingerprint(ctx), path, hashlib.sha256(open(path, 'rb').read()).hexdigest()[:12])
@@ -330,6 +349,28 @@ def scenario_stream(ctx, path, fp):
         open(mobs, 'w').write(out)
         open(os.path.join(d, 'DONE'), 'w').write('ok')
     return (path, robs, mobs), None
+
+
+# ------------------------------------------------------------------ violation search
+def violation_search(ctx, pid, dv):
+    """A model/implementation disagreement was found and no monitor failed.  Look for a concrete
+    failure of the property on the implementation: replay the history prefix with `explain`
+    (which reports why a transaction failed) and let the property's classifier decide."""
+    import monitors as M
+    cls = M.EXPLAIN_CLASSIFIERS.get(pid)
+    if not cls:
+        return None
+    tmp = os.path.join(ctx.build, 'replay', 'search-%s.ops' % pid)
+    os.makedirs(os.path.dirname(tmp), exist_ok=True)
+    open(tmp, 'w').write('\n'.join(dv['ops']) + '\n')
+    rc, out = run([ctx.harness_bin, 'explain', tmp], timeout=600)
+    if rc != 0:
+        return None
+    last = None
+    for ln in out.splitlines():
+        if ln.startswith('op '):
+            last = ln
+    return cls(dv, last or '', out)
 
 
 # ------------------------------------------------------------------ replay files
@@ -431,6 +472,14 @@ def check_property(ctx, pid, tier, seed, replay=None):
             violations.append((rp, True, err[:200]))
         else:
             streams.append(('scenario:' + scn, [tr]))
+    if spec.get('grid'):
+        tr, err = grid_stream(ctx, fp)
+        if err:
+            rp = write_replay(ctx, pid, 'grid', {'kind': 'stream-failure', 'error': err})
+            violations.append((rp, True, err[:200]))
+        else:
+            streams.append(('grid', [tr]))
+            cov['grid_exhaustive'] = True
     for prof in spec.get('profiles', []):
         trs, err = history_stream(ctx, prof, seed, sizes['hist'], sizes['len'], fp)
         if err:
@@ -440,6 +489,8 @@ def check_property(ctx, pid, tier, seed, replay=None):
             streams.append(('profile:' + prof, trs))
 
     for sname, trs in streams:
+        all_mon = []
+        all_rel = []
         st = {'histories': 0, 'ops': 0, 'ok': 0, 'err': 0, 'first_diffs': 0, 'relevant_diffs': 0,
               'opkinds': {}, 'monitor_checks': 0}
         for (opsf, robs, mobs) in trs:
@@ -452,15 +503,26 @@ def check_property(ctx, pid, tier, seed, replay=None):
                 known_hits[kid] = desc
             if res['samples'] and len(cov['samples']) < 6:
                 cov['samples'].append({'stream': sname, 'history_prefix': res['samples'][0]})
-            for mv in res['monitor_violations'][:1]:
-                rp = write_replay(ctx, pid, 'monitor', dict(mv, kind='monitor', stream=sname, seed=seed,
-                                  how_to_replay='./check %s --replay <this file>' % pid))
-                violations.append((rp, False, 'monitor: ' + mv['message'][:200]))
-            for dv in res['relevant'][:1]:
-                if not res['monitor_violations']:
-                    rp = write_replay(ctx, pid, 'corr', dict(dv, kind='correspondence', stream=sname, seed=seed,
-                                      theorems_no_longer_tied=au['theorems']))
-                    violations.append((rp, True, 'model/implementation disagreement at op %s: %s' % (dv.get('op_index'), dv.get('op'))))
+            all_mon.extend(res['monitor_violations'])
+            all_rel.extend(res['relevant'])
+        if all_mon:
+            mv = all_mon[0]
+            rp = write_replay(ctx, pid, 'monitor', dict(mv, kind='monitor', stream=sname, seed=seed,
+                              how_to_replay='./check %s --replay <this file>' % pid))
+            violations.append((rp, False, 'monitor: ' + mv['message'][:200]))
+        elif all_rel:
+            dv = all_rel[0]
+            extra = violation_search(ctx, pid, dv)
+            if extra:
+                rp = write_replay(ctx, pid, 'search', dict(dv, kind='violation-search', stream=sname, seed=seed,
+                                  message=extra, how_to_replay='./check %s --replay <this file>' % pid))
+                violations.append((rp, False, 'violation search: ' + extra[:200]))
+            else:
+                rp = write_replay(ctx, pid, 'corr', dict(dv, kind='correspondence', stream=sname, seed=seed,
+                                  theorems_no_longer_tied=au['theorems'],
+                                  note='model and implementation disagree; the property monitors and the violation '
+                                       'search found no input on which the property itself fails'))
+                violations.append((rp, True, 'model/implementation disagreement at op %s: %s' % (dv.get('op_index'), dv.get('op'))))
         cov['streams'][sname] = st
 
     return finish(ctx, pid, tier, seed, t0, spec, au, cov, violations, known_hits)
